@@ -34,6 +34,7 @@ def check(ctx):
     ctx.rule('C10.R8', 'loop counter / decoded length type holds checker.maximum')
     ctx.rule('C10.R9', 'unknown extension additions skipped by their length; bitmap header range-checked')
     C09.helper_rules(ctx, 'C10', FUN, 8)
+    C09.arithmetic_rules(ctx, 'C10', FUN, 8)
     # generator_rules writes R7 as "C type holds the range" and R8 as the loop counter; C10 keeps those ids
     C09.generator_rules(ctx, 'C10', GEN, FUN, 'oer')
 
@@ -225,3 +226,14 @@ MUTANTS = [
          new="    if (value <= 256u) {\n        length = 1;\n    } else if (value < 65536u) {\n        length = 2;\n    } else if (value < 16777216u) {\n        length = 3;\n    } else {\n        length = 4;", expect='C10.R7'),
 ]
 REFACTORS = []
+
+MUTANTS.append(dict(name='oer decoder_read_int reads the low octets of a 3-octet value as a signed 16-bit number', file='asn1tools/source/c/oer_functions.py',
+                    old="""        tmp = ((uint32_t)decoder_read_uint8(self_p) << 16u);
+        tmp |= decoder_read_uint16(self_p);
+        if((tmp & 0x800000u) == 0x800000u) {
+            tmp += 0xff000000u;
+        }
+        value = (int32_t)tmp;""", new="""        value = (int32_t)decoder_read_int8(self_p) * 65536;
+        value += decoder_read_int16(self_p);""", expect='C10.R10'))
+MUTANTS.append(dict(name='oer length determinant long form starts at 129', file='asn1tools/source/c/oer_functions.py',
+                    old="    if (length < 128u) {", new="    if (length < 129u) {", expect='C10.R10'))
